@@ -163,6 +163,17 @@ claim("C01", "exploration",
       "retraining_recs on drift is [start <= end == current index] and is not carried into the next epoch.  Sampled.",
       TB + " The harness never calls reset().", "DESIGN.md 4 (C01)")
 
+claim("C02", "exploration",
+      "runtime monitoring: twin differential - a freshly constructed detector per epoch (documented carry-over only) run beside "
+      "the real detector under an identical numpy seed schedule; public outputs compared after every update",
+      "For the ten listed detectors, hundreds (thousands thorough) of histories with several drifts at arbitrary spacing and, for "
+      "batch detectors, explicit set_reference calls at random positions: at every drift / set_reference a new detector is built "
+      "with the same parameters and the documented carry-over and fed the same data under the same per-call seed; state, "
+      "retraining_recs (index-shifted) and the public statistics (Page-Hinkley table, STEPD accuracies, HDM distance / epsilons / "
+      "beta / reference size / feature epsilons, kdq-tree node counts and Kulldorff values, NN-DVI reference) must be identical "
+      "from the following update on.  Sampled.",
+      TB + " Counters are C01's business and are not compared here.", "DESIGN.md 4 (C02)")
+
 NOT_YET = "check not built yet in this revision of /verif (planned: see DESIGN.md section 4); nothing is claimed for it"
 
 
